@@ -285,7 +285,13 @@ class Gen:
         for _ in range(self.r.randrange(2, 9)):
             x = self.r.randrange(100)
             a = self.r.randrange(2); b = 1 - a
-            if x < 30:
+            if x < 3:
+                # an object assigned / moved / safe_assigned / swapped with ITSELF stays as it is
+                o = self.pick(['copya', 'movea', 'swap', 'safea'])
+                self.stat('obj:self-' + o)
+                self.emit('obj %s %d %d' % (o, a, a))
+                self.emit('set %d hash %s' % (a, self.arg('s')))
+            elif x < 30:
                 o = self.pick(['copya', 'copyc', 'movea', 'movec', 'swap', 'safea', 'clear'])
                 self.stat('obj:' + o)
                 self.emit('obj %s %d %d' % (o, a, b))
@@ -324,7 +330,7 @@ class Gen:
             else:
                 self.stat('alias:obj')
                 self.emit(self.pick(['aset %d %s %s' % (a, self.pick(SETTERS), self.pick(GETTERS)), 'aparse %d' % a, 'aparsebg %d %s' % (a, self.pick(['href', 'protocol', 'pathname', 'search', 'path'])), 'aparseb %d %s' % (a, self.arg(self.pick(RELS))),
-                                     'parse %d %s s%d' % (a, self.arg(self.pick(RELS)), a), 'sp %d aparse %s' % (a, self.arg(self.pick(['a', 'q', 'next', 'x']))), 'sp %d aset2' % a]))
+                                     'parse %d %s s%d' % (a, self.arg(self.pick(RELS)), a), 'sp %d aparse %s' % (a, self.arg(self.pick(['a', 'q', 'next', 'x']))), 'sp %d aset2' % a, 'sp %d selfsafea' % a]))
         if self.r.randrange(12) == 0:
             # "follow the next parameter": the input of parse() is a view of the URL's own search parameter
             self.stat('alias:parse-own-param')
@@ -369,7 +375,7 @@ class Gen:
                 # argument points into
                 ln = self.pick(['L' * 40, 'k', '\u00e4' * 20])
                 for v in ('1', '2', '3'): self.emit('psp 0 append %s %s' % (self.arg(ln), self.arg(v)))
-            self.emit('psp 0 %s' % self.pick(['aparse %s' % self.arg(self.pick(['next', 'a', 'q', 'b'])), 'aappend', 'aset', 'aset2', 'aset2', 'adel', 'adel2']))
+            self.emit('psp 0 %s' % self.pick(['aparse %s' % self.arg(self.pick(['next', 'a', 'q', 'b'])), 'aappend', 'aset', 'aset2', 'aset2', 'adel', 'adel2', 'selfsafea']))
             self.emit('psp 0 sort')
         if self.r.randrange(5) == 0:
             # a list known to be sorted receives an UNSORTED list from another object, then is sorted: every
@@ -739,7 +745,12 @@ class Gen:
         self.stat('case:pct')
         e = self.enc(60)
         x = self.r.randrange(100)
-        if x < 40:
+        if x < 6:
+            # a user-built no-encode set: every way to give the range (empty, one element, up to 0xFF, reversed)
+            lo, hi = self.pick([(0x21, 0x7e), (0x21, 0xff), (0x00, 0xff), (0x80, 0xff), (0x41, 0x41), (0x7f, 0x21), (0xff, 0xff), (0x00, 0x00), (self.r.randrange(256), self.r.randrange(256))])
+            t = ''.join(self.pick(['a', 'Z', ' ', '%', '~', '\x00', '\x7f', '\u00e9', '\u00ff', '!', '/']) for _ in range(self.r.randrange(0, 8)))
+            self.emit('pencset %x %x %x %s' % (lo, hi, self.pick([0x25, 0x41, 0xff, 0x00]), self.arg(t, e)))
+        elif x < 40:
             t = ''.join(self.pick(['a', ' ', '%', '/', '?', '#', "'", '"', '<', '`', '{', '|', '\\', '^', ':', '@', '=', '&', '+', '$', ',', ';', '[', ']', '~', '!', '(', '*', '\x00', '\x1f', '\x7f'] + BOUNDARY) for _ in range(self.r.randrange(0, 8)))
             self.emit('penc %s %s' % (self.pick(['fragment', 'query', 'squery', 'path', 'rawpath', 'posixpath', 'userinfo', 'component']), self.arg(t, e)))
         else:
